@@ -289,7 +289,7 @@ class StubsStringGenerator:
 
                 if not is_internal_superclass:
                     self._add_to_imports(superclass)
-                    superclass_names.append(superclass_name)
+                    superclass_names.append(_replace_if_safeds_keyword(superclass_name))
                 else:
                     # For internal superclasses, we have to add their public members to subclasses.
                     superclass_methods_text += self._create_internal_class_string(
@@ -712,7 +712,7 @@ class StubsStringGenerator:
                     if name[0] == "_" and type_data["qname"] not in self.module_imports:
                         self._current_todo_msgs.add("internal class as type")
 
-                    return name
+                    return _replace_if_safeds_keyword(name)
         elif kind == "FinalType":
             return self._create_type_string(type_data["type"])
         elif kind == "CallableType":
@@ -750,7 +750,7 @@ class StubsStringGenerator:
             if name == "Set":
                 self._current_todo_msgs.add("no set support")
             elif name == "NamedSequence":
-                name = type_data["name"]
+                name = _replace_if_safeds_keyword(type_data["name"])
 
             if types:
                 if len(types) >= 2 and name in {"Set", "List"}:
